@@ -929,8 +929,25 @@ func (ex *Exec) atLoopHead(s *State, fr *Frame, b *ssa.BasicBlock, l *Loop) bool
 		}
 	}
 	if fromBack {
+		headNames := map[string]Value{}
+		hp := fmt.Sprintf("@head.%s.%d.", fnName, l.Ordinal)
+		for k, v := range s.ghost {
+			if strings.HasPrefix(k, hp) {
+				headNames[k[len(hp):]] = v
+			}
+		}
 		bindPhis(s, false)
 		evalInv(s, "preserved")
+		if len(spec.StepEnsures) > 0 {
+			env := &SpecEnv{ex: ex, cur: s, old: ex.entryOf(fr), vars: map[string]Value{}, fn: fr.fn, fr: fr, prevNames: headNames}
+			for i, c := range spec.StepEnsures {
+				label := c.Label
+				if label == "" {
+					label = fmt.Sprintf("step#%d", i+1)
+				}
+				ex.emit(s, "invariant", fmt.Sprintf("%s/%s/loop%d/%s/step", ex.layer, fnName, l.Ordinal, label), env.evalProve(c.Expr), l.Pos, c.Src)
+			}
+		}
 		if spec.Decreases != nil {
 			env := &SpecEnv{ex: ex, cur: s, old: ex.entryOf(fr), vars: map[string]Value{}, fn: fr.fn, fr: fr}
 			now := env.evalInt(spec.Decreases.Expr)
@@ -981,6 +998,13 @@ func (ex *Exec) atLoopHead(s *State, fr *Frame, b *ssa.BasicBlock, l *Loop) bool
 	if spec.Decreases != nil {
 		d := env.evalInt(spec.Decreases.Expr)
 		s.ghost[fmt.Sprintf("decr.%s.%d", fnName, l.Ordinal)] = IntV{T: d, W: 64, Signed: true}
+	}
+	if len(spec.StepEnsures) > 0 {
+		// remember the values the loop variables have at the head of this (arbitrary) iteration
+		hp := fmt.Sprintf("@head.%s.%d.", fnName, l.Ordinal)
+		for k, v := range s.names {
+			s.ghost[hp+k] = v
+		}
 	}
 	s.visits[b] = 0
 	return false
